@@ -41,6 +41,13 @@ func runC05(r *mon.Run) {
 	if hk.HaveMul {
 		tbl := oracleGTable()
 		r.Require("c05:table:large-entry", "c05:table:odd-entry")
+		// the tables are read through expose-only hooks: both fixed-base entry points are used
+		// once before, so that a tree which builds its tables on first use has built them
+		{
+			one := secp256k1.NewScalarFromUint64(1)
+			_ = new(Point).DoubleScalarMultBasepointVartime(one, one, secp256k1.NewGeneratorPoint())
+			_ = new(Point).ScalarBaseMult(one)
+		}
 		// exhaustive over all 32x255 + 32x15 entries
 		r.Each("c05/tables", 32, func(w *mon.W, i int) {
 			check := func(name string, j int, x, y [4]uint64, want *oracle.Pt) {
